@@ -237,7 +237,17 @@ def write_inputs(scn, sig, d):
             open(p, "wb").write(SW.header(x.shape[0], x.shape[1], "pcm", 2, "01", 1024, rate=u["rate"]) + SW.pcm_bytes(x.T, "01"))
         lines.append("%s %s" % (u["id"], p))
     path = os.path.join(d, "wav.scp" if scn["tool"] == "kaldi" else "map.txt")
-    open(path, "w").write("\n".join(lines) + "\n")
+    text = "\n".join(lines) + "\n"
+    if scn["tool"] == "torch":
+        # the same map as text files come: without a final newline, with blank lines, with DOS line ends
+        v = scn["idx"] % 4
+        if v == 1:
+            text = "\n".join(lines)
+        elif v == 2:
+            text = "\n" + "\n\n".join(lines) + "\n\n"
+        elif v == 3:
+            text = "\r\n".join(lines) + "\r\n"
+    open(path, "w", newline="").write(text)
     return path
 
 
